@@ -11,7 +11,8 @@ tab/space modules (out-of-guarantee stream: malt refuses them explicitly); nesti
 while / with / try; comments at any column, also between blocks and with quotes inside; blank and
 blank-with-spaces lines; bracketed continuation lines with arbitrary (also zero) indentation; backslash
 continuations (with blanks around); triple-quoted, raw, bytes and f-strings with under-indented lines, `#`
-and quotes inside; decorators (plain, with multi-line arguments, wrapping with functools.wraps);
+and quotes inside; raw U+2028 / U+2029 / NEL / FS / GS / RS / VT / FF characters inside string literals, f-strings
+and comments; a `#` inside a string literal on a line that ends in a backslash continuation; decorators (plain, with multi-line arguments, wrapping with functools.wraps);
 multi-line signatures; several simple statements per physical line joined by `;` (at module level, in class
 bodies and in function bodies, each creating lambdas with equal / different signatures); several lambdas per line with equal / different signatures, nested lambdas,
 lambdas spanning lines, lambdas as default values and decorator arguments.
@@ -84,7 +85,8 @@ class Gen(object):
         r = self.rnd
         k = r.random()
         if k < 0.5:
-            self.raw(self.ws() + r.choice(['# note', '# it\'s "quoted', "# '''not a string", '#', '# a \\ b', '#\tx = 1']))
+            self.raw(self.ws() + r.choice(['# note', '# it\'s "quoted', "# '''not a string", '#', '# a \\ b', '#\tx = 1',
+                                           '# sep \u2028 in comment', '# nel \x85 fs \x1c ff \x0c']))
         elif k < 0.7:
             self.raw('')
         elif k < 0.85:
@@ -109,6 +111,17 @@ class Gen(object):
             '"""a""b"""',
             "('p'\n" + w() + "'q')",
         ]
+        if r.random() < 0.12:
+            # characters str.splitlines() treats as line ends but Python source does not: raw inside literals
+            z = r.choice(['\u2028', '\u2029', '\x85', '\x1c', '\x1d', '\x1e', '\x0b', '\x0c'])
+            z2 = r.choice(['\u2028', '\x85', '\x1c', '\x0c', ''])
+            return r.choice([
+                "'a%sb'" % z, '"%s"' % z, "r'%s\\d%s'" % (z, z2), "f'{1}%sq%s'" % (z, z2),
+                "'''one%stwo\n" % z + w() + "three%s'''" % z2,
+                '"""%s\n' % z + w() + '%s x %s"""' % (z2, z),
+                "f'''{1}%s\n" % z + w() + "z%s'''" % z2,
+                "'''%s'''" % z, "r'''a%sb%s'''" % (z, z2),
+            ])
         if self.unsafe:
             k = r.random()
             if k < 0.25:
@@ -156,6 +169,10 @@ class Gen(object):
         k = r.random()
         if k < 0.3:
             self.emit(ind, 'x = %s' % self.expr())
+        elif k < 0.33:
+            self.emit(ind, 'x = %s %% 1 %s \\\n%s%s' % (r.choice(["'item #%d'", '"#%s"', "'''a # b %s'''", "f'#{1}%d'"]),
+                                                     r.choice(['+', ',', 'or']), ' ' + self.ws(),
+                                                     r.choice(["'.'", "'#' \\\n" + self.ws() + " '!'", '"z"  # c'])))
         elif k < 0.4:
             self.emit(ind, 'x = %s  # trailing %s' % (self.expr(), r.choice(['', "'", '"""', '\\ z'])))
         elif k < 0.5:
